@@ -330,7 +330,7 @@ OPERATORS = ["rename-field", "leaf-subselection", "composite-no-selection", "unk
              "inline-on-enum", "inline-on-input", "inline-on-scalar", "retarget-inline", "fragment-on-enum", "fragment-on-input",
              "unreached-self-cycle", "unreached-mutual-cycle", "fault-behind-unreached-cycle",
              "subscription-second-alias", "subscription-second-alias-inline", "subscription-second-alias-spread",
-             "nullable-var-in-defaulted-list", "dup-operation-other-kind", "second-op-fragment-variable"]
+             "nullable-var-in-defaulted-list", "dup-operation-other-kind", "second-op-fragment-variable", "inline-on-unimplemented-interface"]
 
 
 def inject(doc, operator, site, disjoint_type="Lone", names=None):
@@ -497,6 +497,19 @@ def inject(doc, operator, site, disjoint_type="Lone", names=None):
         d["defs"].append(G.frag("VarFr", [G.field("__typename", None, None, [G.directive("include", [G.arg("if", G.v_var("shared"))])])], root))
         d["defs"].append(G.op("UsesFirst", [G.spread("VarFr")], "query", [G.vardef("shared", G.nn(G.named("Boolean")))]))
         d["defs"].append(G.op("UsesSecond", [G.spread("VarFr")], "query", [] if site % 2 == 0 else [G.vardef("shared", G.named("Int"))]))
+    elif operator == "inline-on-unimplemented-interface":
+        # `... on I` where I is an interface that no object type implements (a sub-interface of the field's type): the sets of possible
+        # types cannot intersect, whatever the `implements` clauses say
+        cands = []
+        for s_, i_, where in sels:
+            f = s_[i_]
+            if f["k"] == "field" and f["hasSel"]:
+                for (fn, iface) in (names or {}).get("emptyIfaceSites") or []:
+                    if f["name"] == fn:
+                        cands.append((f, iface))
+        x = nth(cands)
+        if not x: return None
+        x[0]["sel"].append(G.inline([G.field("__typename")], x[1], []))
     elif operator == "dup-operation-other-kind":
         # operation names are unique across ALL operations of a document, whatever their kind
         x = nth([o for o in ops if o["hasName"]])
